@@ -40,6 +40,20 @@ pub fn round_price_down(p: f64, tick_size: f64) -> Price {
     p as Price
 }
 
+/// Largest multiple of the tick-size not above a price
+///
+/// The rounding functions clamp to the range of valid prices,
+/// the upper end of which need not be a multiple of the tick-size.
+///
+/// # Arguments
+///
+/// - `p` - Price
+/// - `tick_size` - Tick size as a float
+///
+fn snap_to_grid(p: Price, tick_size: f64) -> Price {
+    p - p % (tick_size as Price)
+}
+
 /// Filter active orders and randomly cancel them
 ///
 /// Filter a vec of [OrderId] for those that are active and
@@ -103,7 +117,7 @@ pub fn place_buy_limit_order<R: RngCore, D: Distribution<f64>>(
 ) -> Result<OrderId, OrderError> {
     let dist = price_dist.sample(rng).abs();
     let price = mid_price - dist;
-    let price = round_price_down(price, tick_size);
+    let price = snap_to_grid(round_price_down(price, tick_size), tick_size);
     env.place_order(Side::Bid, trade_vol, trader_id, Some(price))
 }
 
@@ -136,7 +150,7 @@ pub fn place_sell_limit_order<R: RngCore, D: Distribution<f64>>(
 ) -> Result<OrderId, OrderError> {
     let dist = price_dist.sample(rng).abs();
     let price = mid_price + dist;
-    let price = round_price_up(price, tick_size);
+    let price = snap_to_grid(round_price_up(price, tick_size), tick_size);
     env.place_order(Side::Ask, trade_vol, trader_id, Some(price))
 }
 
@@ -211,7 +225,7 @@ pub fn place_buy_limit_order_market<
 ) -> Result<MarketOrderId, OrderError> {
     let dist = price_dist.sample(rng).abs();
     let price = mid_price - dist;
-    let price = round_price_down(price, tick_size);
+    let price = snap_to_grid(round_price_down(price, tick_size), tick_size);
     env.place_order(asset, Side::Bid, trade_vol, trader_id, Some(price))
 }
 
@@ -252,7 +266,7 @@ pub fn place_sell_limit_order_market<
 ) -> Result<MarketOrderId, OrderError> {
     let dist = price_dist.sample(rng).abs();
     let price = mid_price + dist;
-    let price = round_price_up(price, tick_size);
+    let price = snap_to_grid(round_price_up(price, tick_size), tick_size);
     env.place_order(asset, Side::Ask, trade_vol, trader_id, Some(price))
 }
 
